@@ -100,16 +100,17 @@ def retainNested (m : List ((Nat × Nat) × List (File × List Nat))) (f : File)
     let v := adel e.2 f
     if v.isEmpty then none else some (e.1, v)
 
+/-- the loop body of `LuaPropertyIndex::remove`: the owner loses its map entry and its whole property -/
+def dropOwner (d : Db) (o : Owner) : Db :=
+  match aget d.propOwners o with
+  | none => d
+  | some id => { d with propOwners := adel d.propOwners o, props := adel d.props id }
+
 /-- `LuaPropertyIndex::remove`: every owner recorded for the file loses its map entry and its property -/
 def removeProps (d : Db) (f : File) : Db :=
   match aget d.propInFile f with
   | none => d
-  | some owners =>
-    let d := { d with propInFile := adel d.propInFile f }
-    owners.foldl (fun d o =>
-      match aget d.propOwners o with
-      | none => d
-      | some id => { d with propOwners := adel d.propOwners o, props := adel d.props id }) d
+  | some owners => owners.foldl dropOwner { d with propInFile := adel d.propInFile f }
 
 /-- `LuaSignatureIndex::remove`: `in_file_signatures.remove(file)` and every listed id leaves `signatures`
 (for every tagged map of this shape) -/
@@ -129,7 +130,9 @@ def remove (d : Db) (f : File) : Db :=
     inFile := d.inFile.filter fun e => e.1.2 ≠ f }
 
 /-- `DbIndex::clear()` on the modelled maps (`id_count = 0` as in `LuaPropertyIndex::clear`) -/
-def clear (_ : Db) : Db := Db.new
+def clear (d : Db) : Db :=
+  { d with perFile := [], keyed := [], nested := [], owned := [], inFile := [],
+           props := [], propOwners := [], propInFile := [], propCount := 0 }
 
 /-- a tagged mutation: which file's analysis performs it -/
 abbrev FMut := File × Mut
